@@ -23,6 +23,17 @@ CHECKS = {
                 text='held on every state change observed (counts and transition multiset in the evidence); '
                      'Master-driven entries checked for a RUNNING Master and for Master precedence', ref='8/C02',
                 note=TRUST_L3),
+    'C03': dict(engine=ENGINE_L3, technique='runtime monitoring: online oracle at every start request emission (hook on '
+                'rpc_handler.send_start_process) against the true Supervisor process states and the plan boundaries '
+                '(hooks on the Starter entry points), with targets crashed at the emission of a request',
+                text='held at every start request observed: lower-sequence processes / applications finished or '
+                     'given up, sequence 0 never started automatically, nothing skipped, nothing requested after a '
+                     'required failure with ABORT / STOP', ref='8/C03', note=TRUST_L3),
+    'C04': dict(engine=ENGINE_L3, technique='runtime monitoring: online oracle at every start request emission: '
+                'requester view through its status API, truth of the target Supervisor, rules model, independent '
+                'node-load computation',
+                text='held at every start request observed, except the listed known findings (load accounting across '
+                     'applications started together)', ref='8/C04', note=TRUST_L3),
     'C08': dict(engine=ENGINE_L3, technique='runtime monitoring: bounded-progress oracle (K / 2K ticks of virtual '
                 'time) over sampled API views after state-triggered fault scripts',
                 text='liveness restated as bounded progress after disturbances stop; verdict in logical ticks, never '
@@ -32,6 +43,11 @@ CHECKS = {
                 text='held on every operation of the generated histories (counts per clause in the evidence)',
                 ref='8/C11', note='trusted base: the 60-line executable specification in monitors/c11_process.py; '
                                   'real ProcessStatus on a real booted Supvisors context'),
+    'C12': dict(engine=ENGINE_L3, technique='runtime monitoring: offline oracle at quiescence comparing the status API '
+                'of every member of a group with each other and with the true process tables, with a mechanism '
+                'classifier fed by online hooks (peer states, snapshots, truth events)',
+                text='held at quiescence on K executions, except the listed known finding (events lost in the '
+                     'handshake window)', ref='8/C12', note=TRUST_L3),
     'C14': dict(engine=ENGINE_L1, technique='runtime monitoring: reference-model monitor on the real '
                 'get_supvisors_instance / strategies / Starter with generated load tables on a real booted context',
                 text='held on every generated choice: the chosen instance is eligible and no eligible instance is '
